@@ -128,6 +128,24 @@ def str_guards(f, bb, S):
         # `v` is the truth of the normalised atom; recompute truth of the bare call
         if s[0] == "call" and len(s[2]) == 2 and fmt_sym(strip(s[2][0]), maxdepth=D) == S:
             lit = _lit(s[2][1])
+            if lit is None and f.kind == "closure":
+                # `['"', '\''].into_iter().find_map(|quote| ..starts_with(quote)..)`: the closure's parameter is an element of the
+                # constant list the adapter walks
+                pp = strip(s[2][1])
+                if pp[0] == "param" and isinstance(pp[1], int) and pp[1] >= 2:
+                    try:
+                        par_, recv_ = closure_param_origin(f.prog, f, pp)
+                    except Exception:
+                        par_, recv_ = f, None
+                    if recv_ is not None and par_ is not f:
+                        chars_ = None
+                        for x_ in walk(recv_):
+                            if x_[0] == "agg" and x_[1] == "array" and x_[2] and all(strip(e)[0] == "const" and strip(e)[1] == "char" for e in x_[2]):
+                                chars_ = [strip(e)[2] for e in x_[2]]
+                            if x_[0] == "const" and isinstance(x_[2], tuple) and x_[2] and all(isinstance(c_, str) and len(c_) == 1 for c_ in x_[2]):
+                                chars_ = list(x_[2])
+                        if chars_ and all(ord(c_) < 128 for c_ in chars_):
+                            lit = "\x00ANY:" + "".join(sorted(chars_))
             truth = v if not a.startswith("Not(") else v
             if s[1].endswith("::starts_with") and lit and truth and fmt_sym(s, maxdepth=D) == a:
                 pre.append(lit)
@@ -576,6 +594,14 @@ def _explicit_len(f, bb, S):
 
 def _len_guard(f, bb, S):
     m = 0
+    if f.kind == "closure" and f.parent in f.prog.fns:
+        # a length test made by the enclosing function before it hands the closure to an adapter (`if expr.len() < 2 { return None }
+        # [..].find_map(|q| ..)`) also holds inside the closure, for the variable it captured under the same name
+        par = f.prog.fns[f.parent]
+        for b2 in sorted(par.normal_blocks()):
+            for st2 in par.stmts(b2):
+                if isinstance(st2, list) and len(st2) > 4 and st2[2] == "=" and st2[4][0] == "agg" and st2[4][1] == "closure" and st2[4][2] == f.name:
+                    m = max(m, _len_guard(par, b2, S))
     ltxt = "core::str::<impl str>::len(%s)" % S
     for (a, v, raw) in guard_atoms(f, bb):
         if " < " in a:
